@@ -560,7 +560,7 @@ Recs == ndJsonDeserialize(IOEnv.OBS_FILE)                 \* [id, prog, devs, lo
 \* (the as-is rules of repaired defects - Dev_NoFnHoist, Dev_NoGlobalVarHoist, Dev_VarRedecl, Dev_SwitchDefaultOrder,
 \*  Dev_CallbackThrow, Dev_CatchParamScope, Dev_ErrorHierarchy, Dev_NoRuntimeLoc, Dev_NoLocInFunctions, Dev_LocNextStatement - stay in MiniJS as documentation of what
 \*  the snapshot did; they are no longer switched on, so a regression is a VIOLATION)
-AllDevs == {"Dev_CompletionTail", "Dev_ArrowArguments", "Dev_OwnNameSlot", "Dev_CatchParamShared"}
+AllDevs == {"Dev_CompletionTail", "Dev_ArrowArguments", "Dev_OwnNameSlot", "Dev_CatchParamShared", "Dev_LocAfterLoopBody"}
 DevsOf(r) == LET S == {r.devs[j] : j \in 1..Len(r.devs)} IN IF "*" \in S THEN AllDevs ELSE S
 \* r.pos: [nid, line, column, statement line, statement column] per marked node (harness/render.py).  A location reported
 \* for node nid is right if it is the node's own position or the start of the statement that contains it
